@@ -337,6 +337,12 @@ theorem unknown_qualifier_ok_of_stable {τ : Name} (h : Stable τ) (hd : '.' ∉
 
 example : Stable "\"tb\"".toList ∧ '.' ∉ "\"tb\"".toList := by decide
 
+/-- **finding D50**: a table written `"Tab"` without alias answers to `tab` as well: the default alias (the already normalised
+    name) is normalised a second time (models.py:66), so next to a table really called `tab` the qualifier `tab` denotes `"Tab"` -/
+theorem dev_D50_default_alias_normalised_twice :
+    ((Table.mk "\"Tab\"".toList ⟨"s".toList⟩ []).toOption.map (fun r => (r.1.rawName, r.1.alias))) =
+      some ("Tab".toList, "tab".toList) := by decide
+
 /-- … but not for quoted mixed case -/
 theorem dev_D20_unknown_qualifier :
     (((Column.mk ['x'] (some [(['c'], some "\"Tb\"".toList)])).toSourceColumns [] (Schema.mk? none []) []).map
